@@ -118,8 +118,7 @@ class RenameModel(BaseModelMutation):
                               model_sig=new_model_sig,
                               db_name=mutator.database)
 
-        mutator.add_sql(
-            self,
-            mutator.evolver.rename_table(new_model,
-                                         old_model_sig.table_name,
-                                         new_model_sig.table_name))
+        mutator.rename_table(self,
+                             new_model,
+                             old_model_sig.table_name,
+                             new_model_sig.table_name)
